@@ -157,7 +157,9 @@ fn op_hash<IntT: for<'a> UInt<'a>>(c: &Case) -> String {
         let scratch_hash = |it: &SplitKmer<IntT>| {
             let h = (k - 1) / 2;
             let start = it.get_middle_pos() - h;
-            NtHashIterator::new(&seq[start..start + k], k, rc).curr_hash()
+            // the hasher is handed the rest of the read, as its documentation invites ("over a sequence"):
+            // it must start on the first k bases of what it is given
+            NtHashIterator::new(&seq[start..], k, rc).curr_hash()
         };
         out.push(format!("{}:{}", it.get_hash(), scratch_hash(&it)));
         while it.get_next_kmer().is_some() {
